@@ -21,13 +21,13 @@ def have(spec):
     return os.path.exists(os.path.join(SPECDIR, spec))
 
 
-def histories(ctx, b, bn, hist, steps):
+def histories(ctx, b, bn, hist, steps, maxn=512):
     def one(typ):
-        tr = os.path.join(ctx.work, "objtrace-%s-%s.ndjson" % (typ, bn))
-        summ = ctx.record(b, "dsp-objects", tr, ["types=" + typ, "hist=%d" % hist, "steps=%d" % steps, "maxn=512", "salt=" + bn],
-                          name="R3 record %s histories [%s]" % (typ, bn))
+        tr = os.path.join(ctx.work, "objtrace-%s-%s-%d.ndjson" % (typ, bn, maxn))
+        summ = ctx.record(b, "dsp-objects", tr, ["types=" + typ, "hist=%d" % hist, "steps=%d" % steps, "maxn=%d" % maxn, "salt=%s%d" % (bn, maxn)],
+                          name="R3 record %s histories n<=%d [%s]" % (typ, maxn, bn))
         ok, st = ctx.validate("dsp/FourierObjTrace.tla", "dsp/FourierObjTrace.cfg", tr,
-                              name="R3 validate %s histories [%s]" % (typ, bn))
+                              name="R3 validate %s histories n<=%d [%s]" % (typ, maxn, bn))
         with ctx._lock:
             if ok:
                 ctx.traces += summ.get("traces", 0)
@@ -36,7 +36,7 @@ def histories(ctx, b, bn, hist, steps):
             else:
                 keep = os.path.join(ctx.work, "..", "..", "replays", "C17")
                 os.makedirs(keep, exist_ok=True)
-                dst = os.path.abspath(os.path.join(keep, "objtrace-%s-%s-seed%d.ndjson" % (typ, bn, ctx.seed)))
+                dst = os.path.abspath(os.path.join(keep, "objtrace-%s-%s-%d-seed%d.ndjson" % (typ, bn, maxn, ctx.seed)))
                 shutil.copy(tr, dst)
                 ctx.violation("dsp:history-rejected:%s:%s" % (typ, bn), st.get("detail", "")[:700],
                               {"trace": dst, "type": typ, "build": bn, "spec": "dsp/FourierObjTrace.tla"})
@@ -66,6 +66,12 @@ def exact_stages(ctx, bins, builds, th):
         w = 41 + (ctx.seed * 53) % 440          # a seed-chosen window of lengths gets the other families too
         shards.append(("all kinds n=%d..%d fam 1-6 (seed window)" % (w, w + 23), ALLK, w, w + 23, [1, 2, 3, 4, 5, 6]))
     shards.append(("radix-2/4 n=1..%d" % (4096 if th else 1024), RADK, 1, 4096 if th else 1024, allf))
+    # lengths beyond 512 are sampled: seed-chosen n up to 10^4 (quick: 3 lengths up to 4096)
+    import random
+    rnd = random.Random(ctx.seed * 1009 + 7)
+    big = sorted(set(rnd.randint(513, 10000) for _ in range(16))) if th else sorted(set(rnd.randint(513, 4096) for _ in range(3)))
+    for n in big:
+        shards.append(("all kinds n=%d fam 0,20 (sampled length)" % n, ALLK, n, n, [0, 20]))
 
     def one(name, kinds, lo, hi, fams):
         cases = ctx.gen("dsp/ExactDft.tla", "dsp/ExactDft.cfg", name="R1+R2 gen exact sums " + name, timeout=1700,
@@ -99,6 +105,7 @@ def run(ctx):
     # ---- R3: object histories ---------------------------------------------
     for bn, _ in builds:
         thunks += histories(ctx, bins[bn], bn, 100 if th else 12, 50)
+    thunks += histories(ctx, bins["default"], "default", 30 if th else 3, 50, maxn=10000)
 
     # ---- R1+R2: index helpers ----------------------------------------------
     def index():
